@@ -96,14 +96,15 @@ def generate(tier, seed, work, stats):
             ["P", "sg", ["a"], ["-"]], ["N", "sg", ["b"], ["-"]], ["N", "pl", ["a"], ["-"]]]
     for perm in itertools.permutations(("A", "B", "X", "Y")):
         m = dict(zip(roles, perm))
-        cases.append(dict(kind="fcfg", family="directed-ambiguous-readings",
-                          prods=[[m.get(h, h), ha, [m.get(x, x) for x in b], list(ba)] for h, ha, b, ba in tmpl]))
+        for nested in (False, True):
+            cases.append(dict(kind="fcfg", family="directed-ambiguous-readings", nested=nested,
+                              prods=[[m.get(h, h), ha, [m.get(x, x) for x in b], list(ba)] for h, ha, b, ba in tmpl]))
     # random annotated grammars beyond the exhaustive bound
     rnd = random.Random(seed + 22)
     for prods in c08.random_grammars(600 if tier == "quick" else 8000, seed + 23, maxp=6, maxb=2):
         prods = [p for p in prods if all(x in ("S", "A", "B", "a", "b") for x in [p[0]] + p[1])]
         if prods and prods[0][0] == "S":
-            cases.append(dict(kind="fcfg", family="random-annotated",
+            cases.append(dict(kind="fcfg", family="random-annotated", nested=bool(rnd.random() < 0.5),
                               prods=[[h, rnd.choice(["-", "-", "sg", "pl", "x"]), b,
                                       [rnd.choice(["-", "x", "x", "sg", "pl"]) if y[0].isupper() else "-" for y in b]] for h, b in prods]))
     return cases
@@ -183,7 +184,9 @@ def do_unify(x, y):
 
 
 # ---------------------------------------------------------------- feature grammars
-def build_fcfg(prods):
+def build_fcfg(prods, nested=False):
+    """nested=True writes the value v of feature n as the structure [m = v] (as in AGREEMENT=[NUMBER=sg]): the same
+    abstract grammar, another shape of feature structure."""
     from pyformlang.cfg import Variable, Terminal
     from pyformlang.fcfg import FCFG, FeatureProduction, FeatureStructure
     plist = []
@@ -194,6 +197,10 @@ def build_fcfg(prods):
             fs = FeatureStructure()
             if a == "x":
                 fs.add_content("n", shared)
+            elif a != "-" and nested:
+                inner = FeatureStructure()
+                inner.add_content("m", FeatureStructure(a))
+                fs.add_content("n", inner)
             elif a != "-":
                 fs.add_content("n", FeatureStructure(a))
             return fs
@@ -229,7 +236,7 @@ def replay(case):
           "dom": ["sg", "pl"], "L": 3, "words": [list(w) for w in words], "acc": [], "free": bool(case.get("free"))}
     acc = []
     for w in words:
-        fg = build_fcfg(prods)
+        fg = build_fcfg(prods, nested=bool(case.get("nested")))
         r = guard.call(fg.contains, list(w), timeout=3.0)
         if r[0] != "ok":
             ev["exc"] = (r[1] if r[0] == "exc" else "Timeout") + " on " + "".join(w)
